@@ -66,8 +66,43 @@ struct AsyncHarnessFS {
     counter: AtomicUsize,
 }
 
+/// cooperative task scheduler (`--aconc`): every trait call through a wrapper first waits at a gate until the
+/// scheduler grants its task one step; tasks are polled by hand, one at a time, so a step is exactly one trait call
+struct ASched {
+    cur: usize,
+    granted: Vec<bool>,
+    at_gate: Vec<Option<String>>,
+}
+thread_local! {
+    static SCHED: std::cell::RefCell<Option<ASched>> = std::cell::RefCell::new(None);
+}
+struct Gate(String);
+impl Future for Gate {
+    type Output = ();
+    fn poll(self: Pin<&mut Self>, _cx: &mut Context<'_>) -> Poll<()> {
+        SCHED.with(|s| {
+            let mut s = s.borrow_mut();
+            match s.as_mut() {
+                None => Poll::Ready(()),
+                Some(sc) => {
+                    let t = sc.cur;
+                    if sc.granted[t] {
+                        sc.granted[t] = false;
+                        sc.at_gate[t] = None;
+                        Poll::Ready(())
+                    } else {
+                        sc.at_gate[t] = Some(self.0.clone());
+                        Poll::Pending
+                    }
+                }
+            }
+        })
+    }
+}
+
 impl AsyncHarnessFS {
     async fn enter(&self, method: &'static str, p: &str, q: Option<&str>) -> VfsResult<()> {
+        Gate(format!("{}:{}", self.wrap_id, method)).await;
         if self.pending {
             let c = self.counter.fetch_add(1, Ordering::SeqCst);
             YieldN((c * 7 + self.wrap_id * 3 + p.len()) % 4).await;
@@ -445,6 +480,195 @@ async fn run_op(c: &mut ACase, idx: usize, toks: &[&str]) -> String {
     }
 }
 
+fn aconfig_line(cur: &mut ACase, toks: &[&str]) -> bool {
+    match toks {
+        ["base", "mem"] => cur.bases.push(Some(Box::new(AsyncMemoryFS::new()))),
+        ["base", "phys"] => {
+            let n = COUNTER.fetch_add(1, Ordering::SeqCst);
+            let d = std::env::temp_dir().join(format!("vfsxa_{}_{}", std::process::id(), n));
+            let _ = std::fs::remove_dir_all(&d);
+            std::fs::create_dir_all(&d).unwrap();
+            cur.bases.push(Some(Box::new(AsyncPhysicalFS::new(&d))));
+            cur.tmpdirs.push(d);
+        }
+        ["fs", "base", i] => { let b = cur.bases[i.parse::<usize>().unwrap()].take().unwrap(); let r = cur.wrap(b); cur.roots.push(r); }
+        ["fs", "alt", j, p] => { let root = cur.path_of(j.parse().unwrap(), p); let r = cur.wrap(Box::new(AsyncAltrootFS::new(root))); cur.roots.push(r); }
+        ["fs", "ovl", _n, rest @ ..] => {
+            let mut layers = vec![];
+            for ch in rest.chunks(2) { layers.push(cur.path_of(ch[0].parse().unwrap(), ch[1])); }
+            let r = cur.wrap(Box::new(AsyncOverlayFS::new(&layers)));
+            cur.roots.push(r);
+        }
+        _ => return false,
+    }
+    true
+}
+
+// ---------------------------------------------------------------------------------------------------------------
+// `--aconc`: concurrent TASKS through the async API, interleaved at trait-call granularity by the scheduler above
+
+struct AProgram { name: String, config: Vec<String>, setup: Vec<String>, threads: Vec<Vec<String>>, mode: String, arg: String }
+struct ARun { choices: Vec<usize>, runnable: Vec<Vec<usize>>, labels: Vec<String>, results: Vec<Vec<String>>, snap: String, stuck: bool }
+
+fn abuild(p: &AProgram) -> ACase {
+    let mut c = ACase::new(&p.name, false);
+    for l in &p.config {
+        let toks: Vec<&str> = l.split(' ').collect();
+        assert!(aconfig_line(&mut c, &toks), "bad config line {}", l);
+    }
+    for (i, l) in p.setup.iter().enumerate() {
+        let toks: Vec<&str> = l.split(' ').collect();
+        futures::executor::block_on(run_op(&mut c, 1000 + i, &toks));
+    }
+    c
+}
+
+fn arun_once(p: &AProgram, prefix: &[usize], sticky: bool) -> ARun {
+    SCHED.with(|s| *s.borrow_mut() = None);
+    let mut base = abuild(p);
+    let n = p.threads.len();
+    let mut tasks: Vec<Option<Pin<Box<dyn Future<Output = Vec<String>>>>>> = vec![];
+    for t in 0..n {
+        let ops = p.threads[t].clone();
+        let mut c = ACase::new("t", false);
+        c.roots = base.roots.clone();
+        c.shared = base.shared.clone();
+        c.set_times = base.set_times.clone();
+        tasks.push(Some(Box::pin(async move {
+            let mut out = vec![];
+            for (i, l) in ops.iter().enumerate() {
+                let toks: Vec<&str> = l.split(' ').collect();
+                let r = futures::FutureExt::catch_unwind(std::panic::AssertUnwindSafe(run_op(&mut c, i, &toks))).await;
+                out.push(r.unwrap_or_else(|_| "panic".to_string()));
+            }
+            out
+        })));
+    }
+    SCHED.with(|s| *s.borrow_mut() = Some(ASched { cur: 0, granted: vec![false; n], at_gate: vec![None; n] }));
+    let waker = futures::task::noop_waker();
+    let mut cx = Context::from_waker(&waker);
+    let mut results: Vec<Vec<String>> = vec![vec![]; n];
+    let mut stuck = false;
+    // drive task t until it waits at a gate or finishes
+    let mut drive = |t: usize, tasks: &mut Vec<Option<Pin<Box<dyn Future<Output = Vec<String>>>>>>, results: &mut Vec<Vec<String>>, stuck: &mut bool| {
+        SCHED.with(|s| s.borrow_mut().as_mut().unwrap().cur = t);
+        let mut spins = 0;
+        loop {
+            let done = match tasks[t].as_mut() {
+                None => true,
+                Some(f) => match f.as_mut().poll(&mut cx) {
+                    Poll::Ready(out) => { results[t] = out; true }
+                    Poll::Pending => false,
+                },
+            };
+            if done { tasks[t] = None; return; }
+            let at_gate = SCHED.with(|s| s.borrow().as_ref().unwrap().at_gate[t].is_some());
+            if at_gate { return; }
+            spins += 1;
+            if spins > 10000 { *stuck = true; return; }
+        }
+    };
+    for t in 0..n { drive(t, &mut tasks, &mut results, &mut stuck); }
+    let mut choices = vec![];
+    let mut runnable_log = vec![];
+    let mut labels = vec![];
+    while !stuck {
+        let runnable: Vec<usize> = (0..n).filter(|t| tasks[*t].is_some()).collect();
+        if runnable.is_empty() { break; }
+        let step = choices.len();
+        let t = if step < prefix.len() && runnable.contains(&prefix[step]) { prefix[step] }
+                else if sticky && !choices.is_empty() && runnable.contains(&choices[step - 1]) { choices[step - 1] }
+                else { runnable[0] };
+        let label = SCHED.with(|s| { let mut s = s.borrow_mut(); let sc = s.as_mut().unwrap(); sc.granted[t] = true; sc.at_gate[t].clone().unwrap_or_default() });
+        labels.push(format!("{}:{}", t, label));
+        choices.push(t);
+        runnable_log.push(runnable);
+        drive(t, &mut tasks, &mut results, &mut stuck);
+    }
+    drop(tasks);
+    SCHED.with(|s| *s.borrow_mut() = None);
+    let k = (base.roots.len() - 1).to_string();
+    let snap = futures::executor::block_on(run_op(&mut base, 9999, &["snap", &k]));
+    base.cleanup();
+    ARun { choices, runnable: runnable_log, labels, results, snap, stuck }
+}
+
+fn aprint(p: &AProgram, r: &ARun) {
+    let sch: Vec<String> = r.choices.iter().map(|c| c.to_string()).collect();
+    if r.stuck {
+        println!("run {} {} DEADLOCK labels {}", p.name, sch.join(","), r.labels.join(","));
+        return;
+    }
+    let res = r.results.iter().map(|t| t.join(";")).collect::<Vec<_>>().join(" | ");
+    println!("run {} {} labels {} :: {} || {}", p.name, sch.join(","), r.labels.join(","), res, r.snap);
+}
+
+fn arun_program(p: &AProgram) {
+    if p.mode == "replay" {
+        let prefix: Vec<usize> = p.arg.split(',').filter(|s| !s.is_empty()).map(|s| s.parse().unwrap()).collect();
+        let r = arun_once(p, &prefix, false);
+        aprint(p, &r);
+        return;
+    }
+    // `pbound K,MAX`: every schedule with at most K preemptions; anything else: plain depth-first enumeration up to MAX runs
+    let (k, maxruns) = if p.mode == "pbound" {
+        let mut it = p.arg.split(',');
+        (it.next().and_then(|x| x.parse().ok()).unwrap_or(2usize), it.next().and_then(|x| x.parse().ok()).unwrap_or(20000usize))
+    } else {
+        (usize::MAX, p.arg.parse().unwrap_or(2000))
+    };
+    let sticky = p.mode == "pbound";
+    let mut stack: Vec<Vec<usize>> = vec![vec![]];
+    let mut runs = 0;
+    let mut exhausted = true;
+    while let Some(prefix) = stack.pop() {
+        if runs >= maxruns { exhausted = false; break; }
+        let r = arun_once(p, &prefix, sticky);
+        runs += 1;
+        aprint(p, &r);
+        if r.stuck { break; }
+        let preempts = |ch: &[usize], upto: usize| -> usize {
+            (1..upto).filter(|&j| ch[j] != ch[j - 1] && r.runnable[j].contains(&ch[j - 1])).count()
+        };
+        for i in prefix.len()..r.choices.len() {
+            let before = if sticky { preempts(&r.choices, i) } else { 0 };
+            for &alt in &r.runnable[i] {
+                if alt != r.choices[i] {
+                    let extra = if sticky && i > 0 && alt != r.choices[i - 1] && r.runnable[i].contains(&r.choices[i - 1]) { 1 } else { 0 };
+                    if !sticky || before + extra <= k {
+                        let mut np = r.choices[..i].to_vec();
+                        np.push(alt);
+                        stack.push(np);
+                    }
+                }
+            }
+        }
+    }
+    println!("done {} runs={} exhaustive={} sequential_orders=0", p.name, runs, exhausted);
+}
+
+pub fn main_conc(file: &str) {
+    std::panic::set_hook(Box::new(|_| {}));
+    let text = std::fs::read_to_string(file).unwrap();
+    let mut cur: Option<AProgram> = None;
+    let mut tid: Option<usize> = None;
+    for line in text.lines() {
+        let line = line.trim();
+        if line.is_empty() || line.starts_with('#') { continue; }
+        let (head, rest) = match line.find(' ') { Some(i) => (&line[..i], &line[i + 1..]), None => (line, "") };
+        match head {
+            "conc" => { cur = Some(AProgram { name: rest.to_string(), config: vec![], setup: vec![], threads: vec![], mode: "explore".into(), arg: "2000".into() }); tid = None; }
+            "base" | "fs" => cur.as_mut().unwrap().config.push(line.to_string()),
+            "setup" => cur.as_mut().unwrap().setup.push(rest.to_string()),
+            "thread" => { cur.as_mut().unwrap().threads.push(vec![]); tid = Some(cur.as_ref().unwrap().threads.len() - 1); }
+            "op" => cur.as_mut().unwrap().threads[tid.unwrap()].push(rest.to_string()),
+            "mode" => { let mut it = rest.splitn(2, ' '); let p = cur.as_mut().unwrap(); p.mode = it.next().unwrap().to_string(); p.arg = it.next().unwrap_or("").to_string(); }
+            "end" => { arun_program(cur.as_ref().unwrap()); cur = None; }
+            _ => panic!("bad line {}", line),
+        }
+    }
+}
+
 /// `tokio` - a current-thread tokio runtime (the default); otherwise `futures::executor::block_on`, i.e. NO tokio runtime is
 /// entered: code that reaches for one (spawn_blocking, Handle::current) must degrade to an error, not panic.
 pub fn main(file: &str, pending: bool, tokio_rt: bool) {
@@ -468,24 +692,8 @@ async fn run_file(text: String, pending: bool) {
             let toks: Vec<&str> = line.split(' ').collect();
             match toks.as_slice() {
                 ["case", n] => { cur.cleanup(); cur = ACase::new(n, pending); }
-                ["base", "mem"] => cur.bases.push(Some(Box::new(AsyncMemoryFS::new()))),
-                ["base", "phys"] => {
-                    let n = COUNTER.fetch_add(1, Ordering::SeqCst);
-                    let d = std::env::temp_dir().join(format!("vfsxa_{}_{}", std::process::id(), n));
-                    let _ = std::fs::remove_dir_all(&d);
-                    std::fs::create_dir_all(&d).unwrap();
-                    cur.bases.push(Some(Box::new(AsyncPhysicalFS::new(&d))));
-                    cur.tmpdirs.push(d);
-                }
                 ["fuel", _] | ["embfile", ..] => {}
-                ["fs", "base", i] => { let b = cur.bases[i.parse::<usize>().unwrap()].take().unwrap(); let r = cur.wrap(b); cur.roots.push(r); }
-                ["fs", "alt", j, p] => { let root = cur.path_of(j.parse().unwrap(), p); let r = cur.wrap(Box::new(AsyncAltrootFS::new(root))); cur.roots.push(r); }
-                ["fs", "ovl", _n, rest @ ..] => {
-                    let mut layers = vec![];
-                    for ch in rest.chunks(2) { layers.push(cur.path_of(ch[0].parse().unwrap(), ch[1])); }
-                    let r = cur.wrap(Box::new(AsyncOverlayFS::new(&layers)));
-                    cur.roots.push(r);
-                }
+                t if aconfig_line(&mut cur, t) => {}
                 ["op", rest @ ..] => {
                     let idx = cur.nops;
                     cur.nops += 1;
